@@ -49,7 +49,8 @@ FakeKeyOp(L, op, x, y) ==
 HandleInput(K, kind, code) ==
   \* 708-714 / 727: record_press / record_release see the event when it arrives (before the layout)
   LET K0 == [K EXCEPT !.tsi = 0, !.out = <<>>,
-                      !.dyn = CASE kind = "d" -> DmRecordPress(@, code, Opts.dynamic_macro_max_presses)
+                      !.dyn = CASE kind = "d" -> DmRecordPress(@, code, Opts.dynamic_macro_max_presses
+                                                                         + (IF Bug = "dm_limit" THEN 1 ELSE 0))
                                 [] kind = "u" -> DmRecordRelease(@, code)
                                 [] OTHER -> @] IN
   CASE kind = "d" ->
@@ -103,8 +104,11 @@ CustomPress(K, c) ==
          [K EXCEPT !.out = @ \o ReleaseKeyOut(k) \o PressKeyOut(k) \o ReleaseKeyOut(k)]
     \* src: mod.rs DynamicMacroRecord / DynamicMacroRecordStop / DynamicMacroPlay arms (1590-1612)
     [] c.c = "dynrec" -> DynApply(K, DmBeginRecord(K.dyn, c.n))
-    [] c.c = "dynstop" -> DynApply(K, DmStopMacro(K.dyn, c.n))
-    [] c.c = "dynplay" -> [K EXCEPT !.dyn = DmPlayMacro(@, c.n)]
+    \* model mutants (DESIGN 3.4): dm_trunc truncates one more, dm_limit allows one press more,
+    \* dm_norecguard forgets which macros are being replayed
+    [] c.c = "dynstop" -> DynApply(K, DmStopMacro(K.dyn, IF Bug = "dm_trunc" THEN c.n + 1 ELSE c.n))
+    [] c.c = "dynplay" -> [K EXCEPT !.dyn = DmPlayMacro(IF Bug = "dm_norecguard" /\ @.rep # <<>>
+                                                       THEN [@ EXCEPT !.rep[1].active = {}] ELSE @, c.n)]
     \* src: mod.rs SequenceCancel / SequenceLeader / SequenceNoerase arms (SeqMode.tla)
     [] SqOn /\ c.c \in {"seqcancel", "seqleader", "seqnoerase"} ->
          LET sr == SqCustom(K.sq, K.out, c) IN [K EXCEPT !.sq = sr.sq, !.out = sr.out]
